@@ -113,6 +113,16 @@ CHECKS = {
             'Trusted: my encoding of the eight languages in dv/langs (DESIGN.md appendix A), lenient where uncertain, self-tested by '
             'fixtures in ./run selftest; element values have pairwise distinct bytes per lane so byte/axis permutations are visible.',
             'DESIGN.md section 4 C06, appendix A'),
+    'C07': ('enum', 'exploration', E2,
+            'All generated ragged programs over every values type x 7 index types, atom rank 0..3 x every vector of subarray lengths over '
+            '{0,1,2} of length 1..3 plus longer vectors, and totals at the maximum of 8-bit index types, x 9 languages: code withheld '
+            'exactly when the values or index type is unsupported per docs/readcode.rst; each program is parsed and its accessor '
+            'interpreted (Python family: executed) for EVERY k and must return subarray k (axes reversed for column-major languages, an '
+            'empty value with atom dimensions where the language has them); the example statement must bind the announced existing '
+            'subarray; the directory must be byte-identical afterwards.',
+            'Trusted: dv/langs mini-interpreters (DESIGN.md appendix A); R drop=TRUE and IDL/Matlab trailing-singleton stripping are '
+            'treated as language defaults, not indexing errors.',
+            'DESIGN.md section 4 C07, appendix A'),
     'C12': ('enum', 'exploration', E2,
             'Every index tuple of length 0..rank+1 over a per-axis atom set (all ints in [-n-1,n], slices, Ellipsis, None, int '
             'lists/arrays, bool masks, non-index objects) for arrays of rank 1-4 incl. empty ones: reads and writes compared '
